@@ -22,7 +22,7 @@ type triple struct{ tag, addr, cmd string }
 
 // ccHandshake: one real client handshake for (tag, addr, cmd) against a real server; `breakIt` makes
 // the server drop the connection right after reading the client's first message.
-func ccHandshake(cache *security.SessionCache, t triple, validCmds []int, breakIt bool, stall bool) (neg *security.SecurityNegotiation, resumed bool, err error) {
+func ccHandshake(cache *security.SessionCache, t triple, validCmds []int, breakIt bool, stall bool, explicitSid string) (neg *security.SecurityNegotiation, resumed bool, err error) {
 	ca, cb := bufpipe.Pair("10.0.0.1:1111", "10.0.0.2:9618")
 	d := 800 * time.Millisecond
 	if stall {
@@ -62,7 +62,7 @@ func ccHandshake(cache *security.SessionCache, t triple, validCmds []int, breakI
 	fmt.Sscan(t.cmd, &cmd)
 	cc := &security.SecurityConfig{AuthMethods: toMethods([]string{"CLAIMTOBE"}), Authentication: security.SecurityPreferred,
 		CryptoMethods: toCiphers([]string{"AES"}), Encryption: security.SecurityOptional, Integrity: security.SecurityOptional,
-		Command: cmd, SessionCache: cache, PeerName: t.addr, SecurityTag: t.tag}
+		Command: cmd, SessionCache: cache, PeerName: t.addr, SecurityTag: t.tag, SessionID: explicitSid}
 	a := security.NewAuthenticator(cc, cst)
 	neg, err = a.ClientHandshake(ctx)
 	resumed = a.WasSessionResumed()
@@ -74,7 +74,7 @@ func ccHandshake(cache *security.SessionCache, t triple, validCmds []int, breakI
 }
 
 func runClientCache(c *Ctx) error {
-	c.Res.Rule = "histories (2-8 steps) of real client handshakes over (tag in {none,T1,T2,srvA}) x (server address in {srvA, srvB, two sinful addresses that differ only in their ?sock= decoration, and the address srvA,srvB (contains a comma) — with tag srvA + address srvB this is the pair whose keys collided when commas were not escaped}) x (command in {60007,60008,60009}) against a real server whose post-auth ValidCommands vary, interleaved with server restart (session forgotten -> SID_NOT_FOUND), broken connections (peer closes) and stalled ones (peer goes silent, the client's deadline fires), client-side expiry (virtual time), explicit invalidation and InvalidateExpired; after every step all 60 LookupByCommand routes are compared with the model and with a reference map (tag,addr,cmd) -> session kept by the spec rules; distinct by history; non-trivial = the history touches >=2 distinct triples"
+	c.Res.Rule = "histories (2-8 steps) of real client handshakes over (tag in {none,T1,T2,srvA}) x (server address in {srvA, srvB, two sinful addresses that differ only in their ?sock= decoration, and the address srvA,srvB (contains a comma) — with tag srvA + address srvB this is the pair whose keys collided when commas were not escaped}) x (command in {60007,60008,60009}) against a real server whose post-auth ValidCommands vary, interleaved with server restart (session forgotten -> SID_NOT_FOUND), broken connections (peer closes) and stalled ones (peer goes silent, the client's deadline fires), client-side expiry (virtual time), explicit invalidation, InvalidateExpired, and handshakes that name a cached session explicitly by id under an arbitrary triple; after every step all 60 LookupByCommand routes are compared with the model and with a reference map (tag,addr,cmd) -> session kept by the spec rules; distinct by history; non-trivial = the history touches >=2 distinct triples"
 	tags := []string{"", "T1", "T2", "srvA"}
 	addrs := []string{"srvA", "srvB", "<127.0.0.1:9618?sock=schedd_1>", "<127.0.0.1:9618?sock=startd_2>", "srvA,srvB"}
 	cmds := []string{"60007", "60008", "60009"}
@@ -125,7 +125,7 @@ func runClientCache(c *Ctx) error {
 						answer = "sidNotFound"
 					}
 				}
-				neg, resumed, err := ccHandshake(cache, t, vc, breakIt, stall)
+				neg, resumed, err := ccHandshake(cache, t, vc, breakIt, stall, "")
 				var r, full string
 				full = "~|none|~|0|-"
 				var sre *security.SessionResumptionError
@@ -175,6 +175,37 @@ func runClientCache(c *Ctx) error {
 					r = "ok full sid=~" // full handshake attempted and failed (broken connection)
 				}
 				log(fmt.Sprintf("chs tag=%s addr=%s cmd=%s answer=%s full=%s", strOrTilde(t.tag), t.addr, t.cmd, answer, full), r)
+			case k == 6 && len(sids) > 0 && c.Rng.Intn(2) == 0:
+				// a handshake that names a cached session by id (the pre-registered / claim-session
+				// path) under an arbitrary (tag, server, command): it resumes that session whatever the
+				// triple is, and must leave the routes alone — no later ordinary handshake for this
+				// triple may ride a session established under another one
+				sid := pick(c, sids)
+				t := pick(c, all)
+				answer := "authorized"
+				_, clientHas := cache.LookupNonExpired(sid)
+				if _, found := security.GetSessionCache().LookupNonExpired(sid); !found {
+					answer = "sidNotFound"
+				}
+				neg, resumed, err := ccHandshake(cache, t, nil, false, false, sid)
+				var sre *security.SessionResumptionError
+				r := "ok other"
+				switch {
+				case err == nil && resumed:
+					r = "ok resumed sid=" + neg.SessionId
+				case errors.As(err, &sre):
+					r = "ok resume-failed sid=" + sre.SessionID
+					if clientHas {
+						// the server refused a session the client held: it is dropped with its routes
+						for tt, x := range ref {
+							if x == sid {
+								delete(ref, tt)
+							}
+						}
+					}
+				}
+				c.Count("op:explicit-sid")
+				log(fmt.Sprintf("cid sid=%s answer=%s", sid, answer), r)
 			case k == 6 && len(sids) > 0: // server restart: forgets everything
 				security.ClearSessionCache()
 				log("# server restart", "")
